@@ -39,6 +39,23 @@ def gen(tier, rng):
                     add(api="deflate", inp=inp, level=level, wrap=wrap, hist_bits=w, lbuf=[3, 0][k % 2], calls=[[[n, 4096, 20000][k % 3], 1 << 20, [0, 1, 2][(k // 2) % 3], 1]] * (n // 4096 + 2), tail_ai=n,
                         meta={"family": "window", "cpu": cpu, "w": w, "dist": dist})
             k += 1
+    # (a2) the whole window's worth of input handed over in small NO_FLUSH pieces, so that everything is only buffered and the first byte is
+    #      compressed with k = 2^w - d bytes already buffered: the hash heads are then seeded relative to the buffered amount, and a candidate
+    #      "k bytes back" must never reach in front of the first byte of the stream (the data has zero groups that would match the zeroed
+    #      bookkeeping fields lying just before the internal buffer)
+    for w in range(9, 16):
+        for d_ in ((4, 1) if tier == "quick" else (1, 2, 3, 4, 5, 8, 16)):
+            kk = (1 << w) - d_
+            n = kk + 300
+            inp = [1 + rng.randrange(250) for _ in range(n)]
+            for off in (40, 41, 200, 1000, kk - 8):
+                if 0 <= off < n - 8: inp[off:off + 4 + (off % 3)] = [0] * (4 + off % 3)
+            for level in range(4):
+                if tier == "quick" and (w + level + d_) % 2: continue
+                piece = [64, 100][(w + level) % 2]
+                calls = [[piece, 1 << 16, 0, 0]] * (kk // piece) + ([[kk % piece, 1 << 16, 0, 0]] if kk % piece else []) + [[300, 1 << 16, 0, 1]]
+                add(api="deflate", inp=inp, level=level, wrap=[0, 3, 1][(w + level) % 3], hist_bits=w, lbuf=[3, 0][w % 2], prefill=0, calls=calls, tail_ai=n,
+                    meta={"family": "buffered-window-then-first-byte", "cpu": "host", "w": w, "dist": kk})
     # (b) dictionaries at stream start: set directly vs pre-processed; long dictionaries vs their 32 KiB tail
     pairs = []
     for dl in ([1, 100, 4000, 32768, 32769, 70000] if tier == "quick" else [1, 2, 3, 100, 258, 4000, 32767, 32768, 32769, 40000, 70000]):
@@ -73,6 +90,17 @@ def gen(tier, rng):
             for mem in (0, 1):
                 add(api="deflate", inp=data, level=level, wrap=[0, 1][mem], lbuf=3, dictmode=mode, dct=dct, prefill=16 * 1, mem=mem,
                     calls=[[1500, 1 << 16, 2, 0], [len(part2), 1 << 16, 0, 1]], meta={"family": "dict-after-full-flush", "cpu": "host", "mode": mode})
+    # (d2) the same with low-entropy data on both sides of the flush point and a short dictionary over other symbols: any stale hash entry or
+    #      buffer content from before the flush point would match at once, but after the dictionary call only the dictionary may be referenced
+    for level in range(4):
+        for mode in (6, 7):
+            for n1 in ([700, 5001, 40000] if tier == "quick" else [1, 300, 700, 5001, 20000, 32768, 40000, 70000]):
+                dct = [rng.choice(b"xyz") for _ in range([100, 9, 3000][(level + n1) % 3])]
+                sym = [[0], [97, 98], [0, 0, 0, 7]][(level + mode) % 3]
+                part1 = [rng.choice(sym) for _ in range(n1)]
+                part2 = [rng.choice(sym) for _ in range(2500)] + dct[-50:] + [rng.choice(sym) for _ in range(300)]
+                add(api="deflate", inp=part1 + part2, level=level, wrap=[0, 1][n1 % 2], lbuf=3, dictmode=mode, dct=dct, prefill=16 * 1, mem=n1 % 3,
+                    calls=[[n1, 1 << 17, 2, 0], [len(part2), 1 << 17, 0, 1]], meta={"family": "dict-after-full-flush-low-entropy", "cpu": "host", "mode": mode})
     return scns, pairs
 
 def run(tier, replay=None):
